@@ -383,6 +383,7 @@ class Gen:
         self.defs = []
         self.unparsed = []
         self.lists = []
+        self.flags = []
 
     def piece(self, name, doc, params, canon, occurrences, expect=1, table=()):
         """params: [(name, 'I'|'B')]; canon and occurrences: expression strings over the parameter names
@@ -409,6 +410,12 @@ class Gen:
             self.unparsed.append("%s: expected %d occurrences, found %d" % (name, expect, len(occurrences)))
         self.defs.append((name, params, "Bool" if sort_of(cexpr) == "B" else "Int", lean(chosen), doc, status))
 
+    def flag(self, name, doc, found):
+        """a fact about a function body; found None = function not located"""
+        if found is None:
+            self.unparsed.append("%s: not located" % name)
+        self.flags.append((name, doc, found))
+
     def strlist(self, name, doc, canon, found):
         """a list of strings (normalised assignment statements); found None = not located"""
         if found is None:
@@ -427,6 +434,9 @@ class Gen:
         for name, doc, items, status in self.lists:
             out.append("/-- %s  [%s] -/" % (doc, status))
             out.append("def %s : List String := [%s]" % (name, ", ".join('"%s"' % i.replace('"', "'") for i in items)))
+        for name, doc, val in self.flags:
+            out.append("/-- %s  [%s] -/" % (doc, "not located" if val is None else "as found in the source"))
+            out.append("def %s : Option Bool := %s" % (name, "none" if val is None else ("some true" if val else "some false")))
         out.append("")
         out.append("/-- pieces the translator could not locate or parse (emitted in canonical form above) -/")
         out.append("def unparsed : List String := [%s]" % ", ".join('"%s"' % u.replace("\\", "/").replace('"', "'")
@@ -569,10 +579,16 @@ def translate(repo):
               sorted(assignments(rebuild[m.end():], names)) if m else None)
     g.strlist("rebuildBefore", "statements of rebuild between the test and buildRemote",
               ["free()"], [s.strip().replace(" ", "") for s in rebuild[:m.start()].split("{")[-1].split(";") if s.strip()] if m else None)
-    g.strlist("freeAssigns", "bookkeeping in free()", ["firstBuild=true"],
-              assignments(free, names) if free else None)
-    g.strlist("setIndexSetsAssigns", "bookkeeping in setIndexSets", ["firstBuild=true"],
-              assignments(setsets, names) if setsets else None)
+    # free() / setIndexSets(): what matters is that the lists are dropped and that the next rebuild really rebuilds;
+    # emitted as facts, so that e.g. removing the (redundant) `firstBuild = true` of setIndexSets changes nothing
+    g.flag("freeClears", "free() empties the map: `remoteIndices_.clear()`",
+           bool(re.search(r"remoteIndices_\s*\.\s*clear\s*\(\s*\)", free)) if free else None)
+    g.flag("freeMarksFirstBuild", "free() sets `firstBuild=true`",
+           ("firstBuild=true" in assignments(free, names)) if free else None)
+    g.flag("setIndexSetsFrees", "setIndexSets() calls free()",
+           bool(re.search(r"(?<![\w.>])free\s*\(\s*\)\s*;", setsets)) if setsets else None)
+    g.flag("setIndexSetsMarksFirstBuild", "setIndexSets() sets `firstBuild=true` itself",
+           ("firstBuild=true" in assignments(setsets, names)) if setsets else None)
     return [("DuneVerif/Gen/C04.lean", g.text())]
 
 
